@@ -140,13 +140,13 @@ def body(ctx):
     VAL.run()
     handle_side(ctx, prog, viol)
     ctx.twin('c09.twin', [], z3.BoolVal(npaths == 0))
-    from ioreplay import PRELUDE
+    from ioreplay import prelude
     fams = {}
     for v in viol:
         fams.setdefault('stale-wakeup' if v[0] == 'stale-wakeup' else 'handle-after-close', v)
     if 'stale-wakeup' in fams:
         ctx.report('stale-wakeup', f"a wake-up for a channel the server just closed is not ignored: {str(fams['stale-wakeup'])[:300]}", {'solver_counterexample': str(fams['stale-wakeup'])[:400]},
-                   PRELUDE + STALE_TEST, inject_into='src/io_loop/mod.rs', profiles=('dev',), panic_is_violation=True)
+                   prelude() + STALE_TEST, inject_into='src/io_loop/mod.rs', profiles=('dev',), panic_is_violation=True)
     if 'handle-after-close' in fams:
         ctx.report('handle-after-close', f"channel handle after a server Channel.Close: {str(fams['handle-after-close'])[:300]}", {'solver_counterexample': str(fams['handle-after-close'])[:400]},
                    HANDLE_TEST, inject_into='src/io_loop/io_loop_handle.rs', profiles=('dev',), hang_is_violation=True, panic_is_violation=True)
